@@ -4,6 +4,8 @@ package main
 
 import (
 	"log/slog"
+	"reflect"
+	"unsafe"
 
 	"example.com/scion-time/core/client"
 	"example.com/scion-time/net/scion"
@@ -15,7 +17,22 @@ import (
 func init() {
 	worlds.Root.NewNTPReferenceClockSCION = func(log *slog.Logger, localAddr, remoteAddr udp.UDPAddr, dscp uint8, pather *scion.Pather) (client.ReferenceClock, []*client.SCIONClient) {
 		c := newNTPReferenceClockSCION(log, "", localAddr, remoteAddr, dscp, nil, "", false)
-		c.pather = pather
-		return c, c.ntpcs[:]
+		// the clock's pather and clients are found by their types, not by field names, so
+		// that renaming them does not take the wired variant of the world away
+		var cs []*client.SCIONClient
+		v := reflect.ValueOf(c).Elem()
+		for i := 0; i < v.NumField(); i++ {
+			f := v.Field(i)
+			f = reflect.NewAt(f.Type(), unsafe.Pointer(f.UnsafeAddr())).Elem()
+			switch {
+			case f.Type() == reflect.TypeOf(pather):
+				f.Set(reflect.ValueOf(pather))
+			case (f.Kind() == reflect.Array || f.Kind() == reflect.Slice) && f.Type().Elem() == reflect.TypeOf((*client.SCIONClient)(nil)):
+				for j := 0; j < f.Len(); j++ {
+					cs = append(cs, f.Index(j).Interface().(*client.SCIONClient))
+				}
+			}
+		}
+		return c, cs
 	}
 }
